@@ -68,7 +68,8 @@ def check_container(ctx, g, w, c, fails, flags):
     for q in probes:
         spellings = [("qn", QualifiedName(Namespace(q.namespace.prefix, q.namespace.uri), q.localpart), q.uri),
                      ("qn-other-prefix", QualifiedName(Namespace("zz" + (q.namespace.prefix or "d"), q.namespace.uri), q.localpart), q.uri),
-                     ("uri", q.uri, q.uri)]
+                     ("uri", q.uri, q.uri),
+                     ("uri-object", Identifier(q.uri), q.uri)]
         s = str(q)
         if s:
             res = cont.valid_qualified_name(s)
@@ -76,7 +77,7 @@ def check_container(ctx, g, w, c, fails, flags):
         kind, x, uri = g.choice(spellings) if g.chance(0.5) else spellings[g.rng.randrange(len(spellings))]
         for kind, x, uri in spellings if g.chance(0.4) else [(kind, x, uri)]:
             captured = None
-            if kind == "uri" and ":" not in x:
+            if kind in ("uri", "uri-object") and ":" not in str(x if kind == "uri" else x.uri):
                 continue
             if kind == "print":
                 # what the print form denotes is a property of the manager's state *now*: an earlier lookup with a QualifiedName
